@@ -405,7 +405,14 @@ func (ex *exec) mapOrder(fr *frame, entries []*mentry) []*mentry {
 	}
 	name := fr.fn.String()
 	if !ex.orderSites[name] {
-		return entries
+		// "callee@caller": only when called from that function
+		c := fr.caller
+		for c != nil && c.fn.Synthetic != "" { // promoted-method wrappers, thunks
+			c = c.caller
+		}
+		if c == nil || !ex.orderSites[name+"@"+c.fn.String()] {
+			return entries
+		}
 	}
 	rest := append([]*mentry(nil), entries...)
 	out := make([]*mentry, 0, len(entries))
